@@ -298,6 +298,10 @@ func (c04) Exec(cc core.Case, r *core.Rec) []core.Failure {
 		// build
 		var constrs []maxsat.Constr
 		hasCard := false
+		// A caller may well use one coefficient slice (and one literal slice) for several constraints:
+		// constraints with equal vectors share the same backing array here.
+		sharedC := map[string][]int{}
+		sharedL := map[string][]maxsat.Lit{}
 		for _, k := range c.Cons {
 			lits := make([]maxsat.Lit, len(k.L))
 			for i, l := range k.L {
@@ -309,11 +313,19 @@ func (c04) Exec(cc core.Case, r *core.Rec) []core.Failure {
 			}
 			var coeffs []int
 			if k.C != nil {
-				coeffs = append([]int{}, k.C...)
+				key := fmt.Sprint(k.C)
+				if sharedC[key] == nil {
+					sharedC[key] = append([]int{}, k.C...)
+				}
+				coeffs = sharedC[key]
 			} else if k.K > 1 && k.W > 0 {
 				hasCard = true
 			}
-			constrs = append(constrs, maxsat.Constr{Lits: lits, Coeffs: coeffs, AtLeast: k.K, Weight: k.W})
+			lkey := fmt.Sprint(k.L)
+			if sharedL[lkey] == nil {
+				sharedL[lkey] = lits
+			}
+			constrs = append(constrs, maxsat.Constr{Lits: sharedL[lkey], Coeffs: coeffs, AtLeast: k.K, Weight: k.W})
 		}
 		perm := c.Perm
 		maxsat.VerifCostPerm = func(k int) []int {
